@@ -49,6 +49,31 @@ CHECKS = {
          "db[i], db[name], the name index and iteration against a plain list-of-rows oracle.",
          "Trusted: Lean kernel; SciPy CSR vstack/slicing/sum_duplicates, NumPy savez/load and pickle enter as their meaning and are compared on every run.",
          "DESIGN.md section 6 (C05)"),
+ "C13": ("Lean 4 theorems on the model of filter_conformers (selection contract for every energy list and RMSD oracle) + differential correspondence with recorded energies/RMSDs",
+         "Props/C13.lean: for all energies, all RMSD oracles and all options the accepted conformers are pairwise at least the cutoff apart, no more than `first`, reported energies and the reported "
+         "RMSD matrix are those of the returned conformers in the returned order; targets are resolved per molecule. Tied to the code by recording the pool energies and every RMSD the real loop asks for, "
+         "feeding them to the model, and re-measuring the returned molecule independently (pairwise GetBestRMS, SMILES, input unmodified, seed repeat, generator reuse).",
+         "Trusted: Lean kernel; RDKit embedding / force fields / GetBestRMS (numerical engines). Partial by nature: seed reproducibility and 'same molecule' are observed, not proved.",
+         "DESIGN.md section 7 (C13)"),
+ "C14": ("Lean 4 theorems on the pipeline model (first-N, conformer naming through the MolItemName regex, level keys) + differential correspondence + comparison with direct fingerprinting",
+         "Props/C14.lean: the loop processes all conformers for first = -1 or >= n and exactly `first` otherwise; suffix-free names get `_<index>` (and the exclusion is necessary: example); level keys. "
+         "Tied to the code by running fprints_from_mol / fprints_dict_from_mol (all_iters) / fprints_from_sdf / fprints_from_smiles / save+reload and comparing with per-conformer Fingerprinter runs.",
+         "Trusted: Lean kernel; extract.py; RDKit SDF I/O, pickle/compression.", "DESIGN.md section 7 (C14)"),
+ "C15": ("Lean 4 theorems on the batch model (collection is permutation-invariant, failures contribute nothing, existing files are never rewritten without overwrite) + real batch runs in three parallel modes with injected crashes",
+         "Props/C15.lean: schedule_free (List.Perm of collected rows under any completion order), isolation, resume_safe (a path present before the run keeps its content when overwrite is off). Tied to the code by real runs of "
+         "fingerprint.generate.run (serial / threads / processes x workers x shuffled inputs x unreadable inputs) compared with the model's collection of per-input results, and by killing the batch after the k-th save, re-running, and comparing SHA-256 of pre-existing outputs.",
+         "Trusted: Lean kernel; Parallelizer / concurrent.futures / the OS. Partial by nature: OS scheduling and crash timing are sampled; MPI mode cannot run here and is not claimed.",
+         "DESIGN.md section 7 (C15)"),
+ "C19": ("Lean 4 theorems on the SDF write/read model (order, limits, 4-decimal energies) + differential correspondence",
+         "Props/C19.lean: reading back what was written gives the first min(wlim, rlim) conformers in order; energies are rounded once (idempotent). Tied to the code by write/read cycles over three compressions, all limit pairs, "
+         "sequential and non-sequential conformer ids, with the molecule's state compared before/after, and SMILES tables.",
+         "Trusted: Lean kernel; extract.py; RDKit SDF record format and coordinate precision, codecs. Partial by nature: SDF text precision and codecs are observed, not proved.",
+         "DESIGN.md section 7 (C19)"),
+ "C20": ("kernel-decided coherence of the defaults table regenerated from the source (translator) + Lean round-trip theorems on the str()/literal_eval model + differential correspondence",
+         "Props/C20.lean: defaults_coherent and defaults_cover are decided by `decide` over the complete table of 123 default declarations regenerated from /repo on every run (signatures, *_DEF constants, argparse parsers, generator class vs defaults.cfg); "
+         "round-trip theorems for bool/None/int. Tied to the code by writing/reading seeded option dictionaries of every scalar type through parameter files and by comparing fingerprints from a parameter file with the same options passed directly.",
+         "Trusted: Lean kernel; extract.py (cross-checked against live inspect/argparse values); configparser, literal_eval, repr(float). Known finding: string options whose text is a Python literal change type.",
+         "DESIGN.md section 7 (C20)"),
  "C16": ("Lean 4 atomic-refusal theorems on the database model + differential correspondence with injected faults",
          "Machine-checked theorems (Props/C16.lean): add/set_prop/update_props refuse exactly the batches carrying a wrong level, wrong length, "
          "missing property or wrong column length at any position, and a refusal returns the database unchanged in every component. Tied to the code "
